@@ -7,6 +7,7 @@ from typing import TYPE_CHECKING, Any
 
 from xknx.core.value_reader import ValueReader
 from xknx.dpt import DPTArray, DPTBase, DPTBinary
+from xknx.exceptions import ConversionError
 from xknx.telegram import Telegram
 from xknx.telegram.address import DeviceAddressableType, parse_device_group_address
 from xknx.telegram.apci import GroupValueRead, GroupValueResponse, GroupValueWrite
@@ -106,4 +107,12 @@ def _parse_payload(
         return transcoder.to_knx(value)
     if isinstance(value, int):
         return DPTBinary(value)
-    return DPTArray(value)
+    try:
+        payload = DPTArray(value)
+        bytes(payload.value)  # raises for anything but octets
+    except (TypeError, ValueError) as err:
+        raise ConversionError("Invalid raw payload", value=value) from err
+    if not 0 < len(payload.value) < 254:
+        # empty, or more octets than an extended frame can carry
+        raise ConversionError("Invalid raw payload length", value=value)
+    return payload
